@@ -5,7 +5,7 @@ sampling modes, +-step, conditions nested to depth 4, part of the space declared
 histories that steer the oracles (scores, failures, retries). The coverage theorem (Props/C05.v) is about
 ensure_active_values on the container model, which the C13 correspondence ties to the code."""
 import math, random, tempfile, shutil, warnings
-from ktverif import lifecycle as lc
+from ktverif import lifecycle as lc, emit, runcoq
 from ktverif.framework import Failure
 
 TRUSTED = ["the oracle's own copy of the search space at the time the trial is issued (trial.hyperparameters.space) is the reference for 'active' and 'domain'",
@@ -228,6 +228,76 @@ def gen(rng):
     return cfg
 
 
+V2V_HEADER = """From stdpp Require Import gmap list.
+From Coq Require Import ZArith.
+From KT Require Import Space Discover BayesVec.
+Open Scope positive_scope.
+(* one case: the space (h_tag 5 = Fixed), the table ((space index, vector index), prob_to_value), what the implementation returned *)
+Definition tbl_lookup (t : list ((nat*nat)*value)) (i j : nat) : value :=
+  match List.find (fun e => Nat.eqb (fst (fst e)) i && Nat.eqb (snd (fst e)) j) t with Some e => snd e | None => VStr 999999 end.
+Definition v2v_ok (c : list hp * list ((nat*nat)*value) * list (name*value)) : bool :=
+  let '(sp, t, want) := c in
+  bool_decide (vector_to_values (fun h => Pos.eqb (h_tag h) 5) (tbl_lookup t) sp = list_to_map want).
+Definition cases : list (list hp * list ((nat*nat)*value) * list (name*value)) := [
+"""
+V2V_FOOTER = "\n].\nEval vm_compute in (map v2v_ok cases).\n"
+
+
+def v2v_space(rng, hps):
+    """spaces for the _vector_to_values correspondence: all kinds incl. Fixed, conditions, names shared between branches"""
+    r = rng.random()
+    if r < 0.3:
+        gen_shared_diffdom(rng, hps)
+    elif r < 0.5:
+        gen_shared_space(rng, hps)
+    else:
+        gen_space(rng, hps)
+    if rng.random() < 0.5:
+        hps.Fixed("fx", rng.choice([7, "k", 1.5, True]))
+    if rng.random() < 0.3:
+        with hps.conditional_scope(hps.space[0].name, [hps.space[0].default]):
+            hps.Fixed("fy", 3); hps.Boolean("fz")
+
+
+def v2v_cases(ctx, n):
+    """BayesianOptimizationOracle._vector_to_values on generated spaces and vectors vs BayesVec.vector_to_values"""
+    import keras_tuner as kt
+    from keras_tuner.engine import hyperparameters as hpm
+    from keras_tuner.tuners import bayesian
+    from checks.c13 import cv, cname, ccond
+    terms = []; infos = []
+    for k in range(n):
+        seed = ctx.rng.randint(0, 2 ** 40); rng = random.Random(seed); I = emit.Intern()
+        hps = hpm.HyperParameters(); v2v_space(rng, hps)
+        o = bayesian.BayesianOptimizationOracle(objective=kt.Objective("score", "min"), max_trials=3, hyperparameters=hps)
+        sp = list(o.hyperparameters.space)
+        nonfixed = [h for h in sp if not isinstance(h, hpm.Fixed)]
+        vec = [rng.choice([0.0, 1.0, 0.5, rng.random(), rng.random()]) for _ in nonfixed]
+        got = o._vector_to_values(list(vec))
+        tbl = []; j = 0
+        for i, h in enumerate(sp):
+            if isinstance(h, hpm.Fixed):
+                continue
+            tbl.append("((%s,%s), %s)" % (emit.nat(i), emit.nat(j), cv(h.prob_to_value(vec[j]), I))); j += 1
+        space = emit.cl("{| h_name := %s; h_conds := %s; h_default := %s; h_tag := %d |}" % (
+            cname(h.name, I), emit.cl(ccond(c, I) for c in h.conditions), cv(h.default, I), 5 if isinstance(h, hpm.Fixed) else 1) for h in sp)
+        want = emit.cl("(%s, %s)" % (cname(kk, I), cv(x, I)) for kk, x in sorted(got.items()))
+        terms.append("(%s, %s, %s)" % (space, emit.cl(tbl), want))
+        infos.append(dict(seed=seed, space=[h.name + ":" + type(h).__name__ for h in sp], vector=vec, got={kk: repr(x) for kk, x in got.items()}))
+    verdicts, errors, wall = runcoq.run_cases(ctx.workdir, V2V_HEADER, terms, V2V_FOOTER, chunk=100, prefix="v2v")
+    fails = []
+    for path, rc, err in errors:
+        fails.append(Failure("harness", "C05/coqc", "coqc failed on %s: %s" % (path, err[-300:]), {"correspondence": "C05 v2v", "file": path}))
+    nd = 0
+    for j, v in enumerate(verdicts):
+        if v != "true":
+            nd += 1
+            if nd <= 2:
+                fails.append(Failure("diff", "C05/v2v-model-vs-impl", "BayesVec.vector_to_values and BayesianOptimizationOracle._vector_to_values disagree on %r" % (infos[j],),
+                                     {"correspondence": "BayesVec.v vs BayesianOptimizationOracle._vector_to_values", "case": infos[j]}))
+    return fails, dict(v2v_cases=n, v2v_diffs=nd, v2v_coqc_wall_s=round(wall, 1), v2v_shared_name=sum(1 for i in infos if len(set(x.split(":")[0] for x in i["space"])) < len(i["space"])))
+
+
 def run(ctx):
     import glob, json
     n = ctx.n(220, 3000)
@@ -248,8 +318,11 @@ def run(ctx):
             failures.append(Failure("violation", "C05/%s/%s" % (bad[0], cfg["kind"]), bad[1], {"cfg": cfg, "space": space, "issued": [(a, {k: repr(v) for k, v in b.items()}) for a, b in issued[-3:]]}))
         if len(samples) < 2 and issued:
             samples.append(dict(cfg=cfg, space=space, first_trials=[(a, {k: repr(v) for k, v in b.items()}) for a, b in issued[:2]]))
-    return dict(evaluations=n, distinct_nontrivial=distinct, traces_validated=stats["issued"],
-                rule="search spaces of 1-15 entries over Int/Float (linear, log, reverse_log, +-step), Choice, Boolean, Fixed with conditions nested to depth 4; 35% of the "
+    vf, vstats = v2v_cases(ctx, ctx.n(200, 2000))
+    failures.extend(vf); stats.update(vstats)
+    return dict(evaluations=n + vstats["v2v_cases"], distinct_nontrivial=distinct, traces_validated=stats["issued"],
+                rule="(model correspondence: BayesianOptimizationOracle._vector_to_values on generated spaces incl. Fixed entries and shared names, random and edge vectors, vs BayesVec.v evaluated in Coq) "
+                     "search spaces of 1-15 entries over Int/Float (linear, log, reverse_log, +-step), Choice, Boolean, Fixed with conditions nested to depth 4; 35% of the "
                      "cases declare a further sub-space inside trials; worker-pool histories (1-4 tuners, scores, INVALID/FAILED outcomes, retries) on the real random, grid, "
                      "Hyperband and Bayesian oracles; every RUNNING trial is checked: value for exactly the active names, each value in its domain (type, range, lattice, "
                      "choice, fixed); non-trivial = distinct (space, oracle kind) with >= 2 issued trials",
